@@ -1240,6 +1240,11 @@ class Env:
                 self.fired.append('channel_noise')
             elif a == 'stall':
                 pos = e['pos'] % (len(newtape) + 1)
+                if e.get('after_close'):
+                    # slow between closing its stdout and writing the report (shutdown work)
+                    cl = [i for i, r_ in enumerate(newtape) if r_[0] == 'C']
+                    if cl:
+                        pos = cl[-1] + 1
                 newtape.insert(pos, ('S', e['dt']))
                 self.fired.append('stall')
             elif a == 'detach':
